@@ -204,7 +204,7 @@ def _gen_cvx(rng, a, nx, xstar):
         k = -base - slack if curv == 1 else -base + slack
         g_out, k_out = G.tolist(), np.round(k, 6).tolist()
     return {'atom': a, 'params': params, 'M': M.tolist(), 'v': v.tolist(), 'mult': mult,
-            'g': g_out, 'k': k_out, 'spell': int(rng.integers(6)),
+            'g': g_out, 'k': k_out, 'spell': int(rng.integers(8)),
             'mult_inside': bool(a in ('expsum', 'logsum') and rng.random() < 0.5)}
 
 
@@ -588,7 +588,13 @@ def _build(spec, variant=None):
                 rso.log(mat(c['M'], c['v']))
             e = (c['mult'] * inner).sum() + e
         else:
-            e = (c['mult'] * at + e) if rng.random() < 0.5 else (e + at * c['mult'])
+            r_ = rng.random()
+            if r_ < 0.35:
+                e = c['mult'] * at + e
+            elif r_ < 0.7:
+                e = e + at * c['mult']
+            else:              # the multiplier factored out of the whole objective
+                e = c['mult'] * (at + (1.0 / c['mult']) * e)
     if o.get('pieces'):
         pcs = [float(p['k']) if p.get('numeric') else lin(p['c'], p['k']) for p in o['pieces']]
         pw = rso.maxof(*pcs) if o['sense'] == 'min' else rso.minof(*pcs)
@@ -630,6 +636,10 @@ def cvx_constraint(rso, B, c, rng=None):
             return (-mult) * at - rest >= 0
         if sp == 4:
             return 0 >= rest + mult * at
+        if sp == 6:      # the multiplier factored out of the whole bracket
+            return mult * (at + (1.0 / mult) * rest) <= 0
+        if sp == 7:
+            return (at + rest * (1.0 / mult)) * mult <= 0
         return -(mult * at) >= rest
     if sp == 0:
         return mult * at + rest >= 0
@@ -641,6 +651,10 @@ def cvx_constraint(rso, B, c, rng=None):
         return (-mult) * at - rest <= 0
     if sp == 4:
         return 0 <= rest + mult * at
+    if sp == 6:
+        return mult * (at + (1.0 / mult) * rest) >= 0
+    if sp == 7:
+        return (at + rest * (1.0 / mult)) * mult >= 0
     return -(mult * at) <= rest
 
 
